@@ -21,6 +21,7 @@ import TboxModel.C12.ProofsServer
 import TboxModel.C12.ProofsUrlAbs
 import TboxModel.C12.ProofsReq
 import TboxModel.C12.ProofsUrlHost
+import TboxModel.C12.ProofsMulti
 namespace Tbox.C12
 
 /-! ## A. parser and feed loop -/
@@ -749,6 +750,137 @@ request makes the loop read EOF and drop the connection; a handler that complete
 response discarded — the closing request is never answered -/
 theorem C12_closing_response_lost_unpatched :
     (Pipe.run {} [.req true, .drop, .commit 0 [0]]).written = [] := by
+  decide +kernel
+
+/-! ## C. several connections of one server (Multi.lean)
+
+`MServer.run {} ops` = the server after ANY sequence of: clients connecting, events of any connection in any interleaving
+(segments of any bytes, handler scripts, late completions, peer close / half close, read and write faults), `stop()` /
+`cleanup()` outside handlers or from inside a handler of any connection, `start()` again. Tokens are resolved through a
+transcription of `cabinet::Cabinet` (cells reused LIFO, ids never). -/
+
+/-- C12_multi_token_own (responses never cross connections, part 1 — token staleness, cf. C08): in every reachable state
+the token held by the Contexts of connection `c` resolves to connection `c` itself as long as `c` is alive, and to NOTHING
+once `c` was torn down — whoever occupies its cabinet cell now (a connection accepted later reuses the cell, and after
+`stop()` + `start()` the positions start again at 0). So `commitRespond`, `isClientValid`, `getContext`, `send` reach the
+connection the request arrived on or no connection at all. -/
+theorem C12_multi_token_own (ops : List MOp) (c : Nat) (cl : Client) (hc : (MServer.run {} ops).clients[c]? = some cl) :
+    (MServer.run {} ops).target c = if cl.srv.pipe.valid then some c else none :=
+  target_own (run_minv ops minv_init) hc
+
+/-- C12_multi_frame: an event of connection `c` — whatever it is: a segment that fails to parse, a closing request, the
+peer closing or half-closing, a read or write fault, a handler completing (also long after `c` is gone) — leaves the
+record of EVERY other connection (parser state, receive buffer, pipeline, parked responses, send side, handler scripts,
+outstanding Contexts) exactly as it was; the only exception is a handler that stops the server (`stopsServer`), covered
+by C12_multi_stop_all. -/
+theorem C12_multi_frame (ops : List MOp) (c d : Nat) (op : SrvOp) (hd : d ≠ c)
+    (hns : (MServer.run {} ops).stopsServer c op = false) :
+    ((MServer.run {} ops).step (.on c op)).clients[d]? = (MServer.run {} ops).clients[d]? :=
+  on_frame (run_minv ops minv_init) c d op hd hns
+
+/-- non-vacuity: teardown of connection 0 by a parse failure while connection 1 has a request outstanding -/
+example : tablesStd = true →
+    let one := ascii "GET /a HTTP/1.1\r\nContent-Length: 0\r\n\r\n"
+    let m := MServer.run {} [.conn, .conn, .on 1 (.seg one), .on 0 (.seg one)]
+    m.stopsServer 0 (.seg (ascii "BAD\r\n\r\n")) = false ∧
+    (m.step (.on 0 (.seg (ascii "BAD\r\n\r\n")))).clients.map (·.srv.pipe.valid) = [false, true] ∧
+    (m.step (.on 0 (.seg (ascii "BAD\r\n\r\n")))).clients.map (·.srv.outstanding) = [[0], [0]] := by
+  decide +kernel
+
+/-- C12_multi_per_connection (responses never cross connections, part 2): in every reachable state the pipeline of every
+connection is exactly the result of ITS OWN admissible history; hence what was handed to its socket are the responses
+0,1,…,resIndex-1 in this order, each once, each committed by a Context of THIS connection for exactly that request index
+(`commit` enters a connection's history only through `MServer.step (.on c …)` with the token resolving to `c` —
+C12_multi_token_own); nothing beyond a closing request; one tear-down; the peer holds a prefix of that stream. -/
+theorem C12_multi_per_connection (ops : List MOp) (c : Nat) (cl : Client) (hc : (MServer.run {} ops).clients[c]? = some cl) :
+    cl.srv.pipe = Pipe.run {} cl.srv.hist ∧ traceOk {} cl.srv.hist = true ∧
+    InOrderOnce cl.srv.pipe.written cl.srv.pipe.resIndex ∧
+    (∀ x ∈ cl.srv.pipe.written, PipeOp.commit x.1 x.2 ∈ cl.srv.hist) ∧
+    (∀ k, cl.srv.pipe.closeIndex = some k → ∀ x ∈ cl.srv.pipe.written, x.1 ≤ k) ∧
+    cl.srv.pipe.disconnects ≤ 1 ∧ cl.srv.pipe.peerBytes <+: (cl.srv.pipe.written.map (·.2)).flatten := by
+  have h := (run_minv ops minv_init).sinv c cl hc
+  have h1 := h.hist
+  have h2 := h.ok
+  refine ⟨h1, h2, ?_, ?_, ?_, ?_, ?_⟩
+  · rw [h1]; exact (C12_in_order_once _ h2).1
+  · rw [h1]; exact (C12_in_order_once _ h2).2
+  · rw [h1]; exact fun k hk => (C12_nothing_after_close _ h2 k hk).1
+  · rw [h1]; exact (C12_single_disconnect _ []).1
+  · rw [h1]; exact (C12_peer_stream _ h2).1
+
+/-- C12_multi_stale_commit: a Context that completes after its connection is gone (closing request answered, peer close,
+read error, parse failure, `stop()`) changes the pipeline of NO connection — in particular not of a new connection that
+was given the same cabinet cell. -/
+theorem C12_multi_stale_commit (ops : List MOp) (c i : Nat) (r : Respond) (cl : Client)
+    (hc : (MServer.run {} ops).clients[c]? = some cl) (hgone : cl.srv.pipe.valid = false) (d : Nat) :
+    (((MServer.run {} ops).step (.on c (.done i r))).clients[d]?).map (·.srv.pipe) = ((MServer.run {} ops).clients[d]?).map (·.srv.pipe) :=
+  stale_commit (run_minv ops minv_init) c i r cl hc hgone d
+
+/-- non-vacuity: connection 0 is closed by the peer with a Context held, connection 1 takes over its cabinet cell (same
+position, larger id), then the Context completes: connection 1 — which has sent a request of its own — gets nothing -/
+example : tablesStd = true →
+    let one := ascii "GET /0 HTTP/1.1\r\nContent-Length: 0\r\n\r\n"
+    let m := MServer.run {} [.conn, .on 0 (.seg one), .on 0 (.cclose none false), .conn, .on 1 (.seg one), .on 0 (.done 0 { status := 200, body := [88] })]
+    m.clients.map (·.tok) = [⟨1, 0⟩, ⟨2, 0⟩] ∧ m.clients.map (·.srv.pipe.valid) = [false, true] ∧
+    m.clients.map (·.srv.pipe.written) = [[], []] ∧ m.clients.map (·.srv.outstanding) = [[], [0]] := by
+  decide +kernel
+
+/-- with the cabinet AS FOUND before the C08 repair (`clear()` reset the id counter) the statement is false: after `stop()` and
+`start()` the first new connection gets the token (1, 0) again, and the late Context of the old connection 0 writes its
+response on the NEW connection, which has not sent anything -/
+theorem C12_multi_stale_commit_counterexample_unrepaired_cabinet : tablesStd = true →
+    let one := ascii "GET /0 HTTP/1.1\r\nContent-Length: 0\r\n\r\n"
+    let ops : List MOp := [.conn, .on 0 (.seg one), .stop false, .start, .conn, .on 0 (.done 0 { status := 200, body := [88] })]
+    ((MServer.run { resetIds := true } ops).clients.map (·.srv.pipe.written.length) = [0, 1]) ∧
+    ((MServer.run {} ops).clients.map (·.srv.pipe.written.length) = [0, 0]) := by
+  decide +kernel
+
+/-- C12_multi_stop_all: `Server::stop()` / `cleanup()` on a running server — outside any handler, with the connections in
+whatever pipeline states (mid-request, responses parked, closing response pending, idle) — tears down EVERY connection and
+empties the cabinet: afterwards no token resolves, so every late commit is discarded (C12_multi_stale_commit), and every
+connection satisfies the single-tear-down and nothing-written-afterwards guarantees (C12_multi_per_connection). The same
+holds when a handler of some connection stops the server (`stopsServer`). -/
+theorem C12_multi_stop_all (m : MServer) (cleanup : Bool) (hr : m.state = .running) (hp : m.poisoned = false) :
+    (∀ (d : Nat) (dl : Client), (m.step (.stop cleanup)).clients[d]? = some dl → dl.srv.pipe.valid = false) ∧
+    (m.step (.stop cleanup)).cab.cells = [] ∧ (∀ d, (m.step (.stop cleanup)).target d = none) ∧
+    (m.step (.stop cleanup)).state ≠ .running := by
+  have hs : m.step (.stop cleanup) = m.stopAll cleanup := by simp [MServer.step, hp, MServer.stopOutside, hr]
+  rw [hs]
+  refine ⟨fun d dl hd => stopAll_dead m cleanup d dl hd, by simp [MServer.stopAll, Cab.clear], ?_, ?_⟩
+  · intro d
+    simp only [MServer.target]
+    cases (m.stopAll cleanup).clients[d]? with
+    | none => rfl
+    | some dl => simp [MServer.stopAll, Cab.clear, Cab.lookup]
+  · simp only [MServer.stopAll]; cases cleanup <;> simp
+
+theorem C12_multi_handler_stop (ops : List MOp) (c : Nat) (b : Bytes) (hp : (MServer.run {} ops).poisoned = false)
+    (hs : (MServer.run {} ops).stopsServer c (.seg b) = true) :
+    (∀ (d : Nat) (dl : Client), ((MServer.run {} ops).step (.on c (.seg b))).clients[d]? = some dl → dl.srv.pipe.valid = false) ∧
+    ((MServer.run {} ops).step (.on c (.seg b))).cab.cells = [] := by
+  generalize MServer.run {} ops = m at *
+  simp only [MServer.stopsServer] at hs
+  cases hc : m.clients[c]? with
+  | none => rw [hc] at hs; cases hs
+  | some cl =>
+    rw [hc] at hs
+    dsimp only at hs
+    cases hst : MServer.segStops cl.srv b with
+    | none => rw [hst] at hs; cases hs
+    | some cleanup =>
+      have : m.step (.on c (.seg b)) = ((m.withWq c (·.step (.seg b))).sync c).stopAll cleanup := by
+        simp [MServer.step, hp, hc, hst]
+      rw [this]
+      exact ⟨fun d dl hd => stopAll_dead _ cleanup d dl hd, by simp [MServer.stopAll, Cab.clear]⟩
+
+/-- non-vacuity: three connections in different pipeline states, a handler of connection 1 calls `stop()` -/
+example : tablesStd = true →
+    let three := ascii "GET /0 HTTP/1.1\r\nContent-Length: 0\r\n\r\nGET /1 HTTP/1.1\r\nContent-Length: 0\r\n\r\nGET /2 HTTP/1.1\r\nContent-Length: 0\r\n\r\n"
+    let m := MServer.run {} [.conn, .conn, .conn, .on 0 (.seg three), .on 0 (.done 1 {}), .on 2 (.seg (ascii "GET /x HT")),
+                             .on 1 (.script 1 [[.keep, .stop]])]
+    m.poisoned = false ∧ m.stopsServer 1 (.seg three) = true ∧
+    (m.step (.on 1 (.seg three))).clients.map (·.srv.pipe.valid) = [false, false, false] ∧
+    (m.step (.on 1 (.seg three))).clients.map (·.srv.pipe.reqIndex) = [3, 2, 0] ∧ (m.step (.on 1 (.seg three))).state = .inited := by
   decide +kernel
 
 end Tbox.C12
